@@ -63,6 +63,9 @@ type Case struct {
 	// Symlinks: the watched directory holds symbolic links (one per file, one more for every rotated
 	// file) to files that live elsewhere, the way kubelet lays out pod logs
 	Symlinks bool `json:"symlinks,omitempty"`
+	// Excluded: the watched directory also holds a file that paths.exclude names (an archive next to the
+	// logs); it sorts in front of the log files
+	Excluded bool `json:"excluded,omitempty"`
 }
 
 var streamNames = []string{"a", "b", "c"}
@@ -118,6 +121,7 @@ func gen(t *rapid.T) Case {
 		ReadBuf:     rapid.SampledFrom([]int{16, 64, 4096, 131072}).Draw(t, "read_buf"),
 	}
 	c.Symlinks = rapid.IntRange(0, 3).Draw(t, "symlinks") == 0
+	c.Excluded = rapid.IntRange(0, 3).Draw(t, "excluded") == 0
 	g := &genState{nextID: 1, nstreams: rapid.IntRange(1, 3).Draw(t, "nstreams")}
 	for i := 0; i < g.nstreams; i++ {
 		c.StallUs = append(c.StallUs, rapid.SampledFrom([]int{0, 0, 200, 2000, 20000}).Draw(t, "stall"))
@@ -170,9 +174,11 @@ func inodeOf(path string) uint64 {
 	return 0
 }
 
-// parseOffsetsSnapshot reads "inode -> set of stream names" out of an offsets file (independent, line based).
-func parseOffsetsSnapshot(content string) map[uint64]map[string]bool {
-	res := map[uint64]map[string]bool{}
+// parseOffsetsSnapshot reads "inode -> the stream names of each of its entries" out of an offsets file
+// (independent, line based). One file has several entries when it is reachable under several names
+// (a rotated file behind a symbolic link of its own: the link is part of the source id).
+func parseOffsetsSnapshot(content string) map[uint64][]map[string]bool {
+	res := map[uint64][]map[string]bool{}
 	var cur map[string]bool
 	inStreams := false
 	for _, line := range strings.Split(content, "\n") {
@@ -183,7 +189,7 @@ func parseOffsetsSnapshot(content string) map[uint64]map[string]bool {
 			var ino uint64
 			fmt.Sscanf(strings.TrimPrefix(line, "  inode: "), "%d", &ino)
 			cur = map[string]bool{}
-			res[ino] = cur
+			res[ino] = append(res[ino], cur)
 		case strings.HasPrefix(line, "  streams:"):
 			inStreams = true
 		case inStreams && strings.HasPrefix(line, "    ") && cur != nil:
@@ -368,7 +374,7 @@ func startRunHold(c *Case, w *world, offsetsFile string, holdFrom int) (*run, er
 	if c.Sync {
 		mode = "sync"
 	}
-	cfgJSON, _ := json.Marshal(map[string]any{
+	cm := map[string]any{
 		"watching_dir":              w.logs,
 		"filename_pattern":          "*",
 		"offsets_file":              offsetsFile,
@@ -380,7 +386,11 @@ func startRunHold(c *Case, w *world, offsetsFile string, holdFrom int) (*run, er
 		"workers_count":             "2",
 		"read_buffer_size":          c.ReadBuf,
 		"should_watch_file_changes": c.WatchWrites,
-	})
+	}
+	if c.Excluded {
+		cm["paths"] = map[string]any{"exclude": []string{filepath.Join(w.logs, "**", "*.gz"), filepath.Join(w.logs, "*.gz")}}
+	}
+	cfgJSON, _ := json.Marshal(cm)
 	info := &pipeline.PluginStaticInfo{Type: "file", Factory: file.Factory}
 	conf, err := pipeline.GetConfig(info, cfgJSON, map[string]int{"gomaxprocs": 2, "capacity": 32})
 	if err != nil {
@@ -453,6 +463,9 @@ func runCase(c Case) *vkit.Outcome {
 	if c.Symlinks {
 		w.real = filepath.Join(dir, "real-files-behind-the-links")
 		_ = os.MkdirAll(w.real, 0o755)
+	}
+	if c.Excluded {
+		_ = os.WriteFile(filepath.Join(w.logs, "a-rotated-archive.0.gz"), []byte("not a log\n"), 0o644)
 	}
 
 	fdkit.TakeLoggedPanics()
@@ -631,12 +644,19 @@ waitCrash:
 		allKnownShape := true
 		w.mu.Lock()
 		for _, id := range miss {
-			streams, has := snap[w.lineIno[id]]
-			knownShape := has && len(streams) > 0 && !streams[w.lineStr[id]]
+			// the restart seeks an entry to the minimum offset SAVED in it; a line is lost that way when some
+			// entry of its file has saved streams but not the line's stream
+			knownShape, saved := false, false
+			for _, streams := range snap[w.lineIno[id]] {
+				if len(streams) > 0 && !streams[w.lineStr[id]] {
+					knownShape = true
+				}
+				saved = saved || streams[w.lineStr[id]]
+			}
 			if !knownShape {
 				allKnownShape = false
 			}
-			desc = append(desc, fmt.Sprintf("id %d (file f%d inode %d stream %q, stream saved in snapshot: %v)", id, w.written[id], w.lineIno[id], w.lineStr[id], has && streams[w.lineStr[id]]))
+			desc = append(desc, fmt.Sprintf("id %d (file f%d inode %d stream %q, stream saved in snapshot: %v)", id, w.written[id], w.lineIno[id], w.lineStr[id], saved))
 		}
 		w.mu.Unlock()
 		if allKnownShape {
@@ -671,6 +691,9 @@ waitCrash:
 	}
 	if rot {
 		o.Class("rotation")
+	}
+	if c.Excluded {
+		o.Class("excluded-file-in-the-watched-directory")
 	}
 	if c.Symlinks {
 		o.Class("files-behind-symbolic-links")
